@@ -38,7 +38,8 @@ type Config struct {
 	DupPct     int
 	MaxDelayMs int
 	Partition  bool
-	Reorder    bool // messages of one link and channel may overtake each other before GST
+	Reorder    bool          // messages of one link and channel may overtake each other before GST
+	LongStall  time.Duration // >0: every node isolated for this long (past the 15-minute recover timeout)
 	Crashes    bool
 	Skew       bool
 	PartSize   int
@@ -76,14 +77,15 @@ type Cluster struct {
 	fault   *kernel.Tape
 	scratch string
 
-	claimed    map[string]time.Duration
-	catAt      time.Duration // last time a catalogue block was proposed
-	hostileAt  time.Duration // last time a hostile message was sent
-	recent     []recentMsg   // recent genuine traffic (material for mutation)
-	lastAt     map[[3]int]time.Duration // per (from,to,channel): last scheduled delivery (FIFO like one MConnection channel)
-	parts      [][]int // current partition (groups of node indices); nil = fully connected
-	stopReason string
-	trace      []string
+	claimed     map[string]time.Duration
+	recoverSeen bool
+	catAt       time.Duration            // last time a catalogue block was proposed
+	hostileAt   time.Duration            // last time a hostile message was sent
+	recent      []recentMsg              // recent genuine traffic (material for mutation)
+	lastAt      map[[3]int]time.Duration // per (from,to,channel): last scheduled delivery (FIFO like one MConnection channel)
+	parts       [][]int                  // current partition (groups of node indices); nil = fully connected
+	stopReason  string
+	trace       []string
 }
 
 // Mode selects which property's faults and oracles are emphasised.
@@ -206,6 +208,23 @@ func drawConfig(c *kernel.Ctx, mode Mode) Config {
 	cfg.Crashes = t.Bool(1, 4)
 	cfg.Skew = t.Bool(1, 2)
 	cfg.GST = time.Duration(t.Range(2, 40)) * time.Second
+	// a stall longer than the 15-minute recover timeout: the recover path
+	// (validator set switch, recover-typed proposals) runs
+	stallOdds := 60
+	if thorough {
+		stallOdds = 12
+	}
+	if (mode != ModeHostile || thorough) && t.Int(stallOdds) == 0 {
+		cfg.LongStall = time.Duration(t.Range(15*60+20, 17*60)) * time.Second
+		cfg.GST = cfg.LongStall + time.Duration(t.Range(2, 20))*time.Second
+		cfg.Horizon = cfg.GST + 8*time.Minute
+		cfg.MaxEvents = 400000
+		cfg.Crashes = false
+		cfg.Partition = false
+		if cfg.GossipMs < 150 {
+			cfg.GossipMs = 150
+		}
+	}
 	// voting powers: unequal
 	cfg.Powers = make([]int64, cfg.N)
 	switch t.Int(3) {
@@ -434,6 +453,7 @@ func (cl *Cluster) sendBytes(from, to int, chID byte, bz []byte, why string) {
 // flush drains the outboxes of all live honest nodes: every own message
 // (proposal, block parts, votes) is offered to every peer.
 func (cl *Cluster) flush() {
+	cl.completeFrozen()
 	for _, n := range cl.honest() {
 		if len(n.outbox) == 0 {
 			continue
@@ -579,6 +599,18 @@ func (cl *Cluster) scheduleBackground() {
 			cl.push(&event{at: at, kind: evCrash, node: who, fn: func() { cl.crash(who, down) }})
 		}
 	}
+	if cfg.LongStall > 0 {
+		at := time.Duration(f.Range(500, 20000)) * time.Millisecond
+		cl.push(&event{at: at, kind: evPartition, fn: func() {
+			cl.parts = nil
+			for i := 0; i < cfg.N; i++ {
+				cl.parts = append(cl.parts, []int{i})
+			}
+			cl.c.Fault("isolate-all(long stall)")
+			cl.tracef("every node isolated for %v", cfg.LongStall)
+		}})
+		cl.push(&event{at: at + cfg.LongStall, kind: evHeal, fn: func() { cl.heal() }})
+	}
 	// heal everything at GST
 	cl.push(&event{at: cfg.GST, kind: evHeal, fn: func() { cl.heal() }})
 	for _, b := range cl.byz {
@@ -613,7 +645,7 @@ func (cl *Cluster) heal() {
 // done reports whether every live honest node has committed the target height.
 func (cl *Cluster) done() bool {
 	target := uint64(cl.cfg.Heights)
-	if cl.now < cl.cfg.GST && (cl.cfg.Partition || cl.cfg.Crashes) {
+	if cl.now < cl.cfg.GST && (cl.cfg.Partition || cl.cfg.Crashes || cl.cfg.LongStall > 0) {
 		// keep going until scheduled faults have had their chance
 		return false
 	}
